@@ -53,6 +53,9 @@ type wsMsg struct {
 func serveWS(c *Case, forceSync bool) *served {
 	w := &world{c: c, forceSync: forceSync}
 	out := &served{w: w, status: 200}
+	if !forceSync {
+		curWorld.Store(w)
+	}
 	hub.mu.Lock()
 	hub.next++
 	id := strconv.Itoa(hub.next)
